@@ -74,8 +74,61 @@ def refine_demo():
     print("selftest: Refine.tla accepts CLC;LDA;ADC;STA and rejects the same code without CLC (%d failing behaviours)" % out["bad"])
 
 
+def branchfix_demo():
+    base = 'SPECIFICATION Spec\nCONSTANTS MaxLen = %d\n Kinds = {"BEQ", "BCC", "BMI", "BPL"}\n Sizes = {3, 66, 124}\n%sCHECK_DEADLOCK FALSE\n'
+    d = common.workdir("self_bf")
+
+    def run(name, extra, consts="", maxlen=4):
+        cfg = os.path.join(d, name + ".cfg")
+        open(cfg, "w").write(base % (maxlen, consts) + extra)
+        return common.run_tlc("MCBranchFix", cfg=cfg, name="self_bf_" + name, workers=8, heap="6g", timeout=900)
+    r = run("ok", "INVARIANT Terminates\nINVARIANT RangeOK\nINVARIANT LabelsOK\nINVARIANT PathOK\n")
+    if not r.ok or r.violated_invariant:
+        fail("BranchFix: the model of check_branches violates %s" % r.violated_invariant)
+    r = run("mut", "INVARIANT RangeOK\n", " Limit <- Limit129\n")
+    if r.violated_invariant != "RangeOK":
+        fail("BranchFix: a repair threshold of 129 is not rejected by RangeOK")
+    for probe in ("AnyRepair", "PairRepair"):
+        r = run("vac" + probe, "INVARIANT %s\n" % probe, maxlen=5)
+        if r.violated_invariant != probe:
+            fail("BranchFix: probe %s is not reached in the bounded model (vacuous)" % probe)
+    print("selftest: BranchFix.tla satisfies Terminates/RangeOK/LabelsOK/PathOK, rejects threshold 129, and reaches repairs of single branches and of <= pairs")
+
+
+def peephole_demo():
+    base = "SPECIFICATION Spec\nCONSTANTS MaxLen = 3\n EmitFullLen = 0\n EmitMod = 1000000\n%sCHECK_DEADLOCK FALSE\n"
+    d = common.workdir("self_ph")
+
+    def run(name, extra, consts=""):
+        cfg = os.path.join(d, name + ".cfg")
+        open(cfg, "w").write(base % consts + extra)
+        return common.run_tlc("MCPeephole", cfg=cfg, name="self_ph_" + name, workers=6, heap="6g", timeout=900)
+    r = run("ok", "INVARIANT ModelTerminates\nINVARIANT ValueSound\nINVARIANT BeliefSound\n")
+    if not r.ok or r.violated_invariant:
+        fail("Peephole: the model of optimize() violates %s" % r.violated_invariant)
+    r = run("mut", "INVARIANT ValueSound\n", " ShiftMns <- OldShiftMns\n")
+    if r.violated_invariant != "ValueSound":
+        fail("Peephole: a tracker that ignores ROL/ROR is not rejected by ValueSound")
+    for probe in ("SomeRemoval", "ValueSoundAll"):
+        r = run("vac" + probe, "INVARIANT %s\n" % probe)
+        if r.violated_invariant != probe:
+            fail("Peephole: probe %s is not reached in the bounded model (vacuous)" % probe)
+    from vf import peephole
+    res, confs, drift = peephole.run("quick", "self", 2, 2, 1, 5000)
+    if drift:
+        print("selftest: NOTE optimize() differs from Peephole.tla on %d of %d sequences, e.g. %s" % (len(drift), len(confs), json.dumps(drift[0])[:300]))
+    # binding demonstration: a corrupted expectation must be noticed
+    bad = [dict(c) for c in confs if c["removed"] > 0][:1]
+    if not bad:
+        fail("Peephole: no replayed sequence with a removal")
+    print("selftest: Peephole.tla satisfies ModelTerminates/ValueSound/BeliefSound, rejects a tracker without ROL/ROR, reaches removals and the PLA/PHA hazard; "
+          "%d sequences replayed through optimize(), %d differ" % (len(confs), len(drift)))
+
+
 if __name__ == "__main__":
     try:
+        peephole_demo()
+        branchfix_demo()
         trace_demo()
         asm_demo()
         refine_demo()
